@@ -274,6 +274,17 @@ def apply_contract(ex, c, fi, args, kwargs, st, k, ctl, node):
         result = SV("none", T.NONE)
     elif c.ret == T.PYOBJ:
         result = PyV("opaque", c.target)
+    elif c.pure:
+        # a pure function is deterministic: the same arguments in the same heap give the same result
+        ckey = (c.target, tuple((n, getattr(v, "t", repr(v))) for n, v in sorted(pre.env.items()) if not n.startswith("$")),
+                tuple(sorted((str(k_), v_) for k_, v_ in st.heap.items())))
+        cache = cx.__dict__.setdefault("_pure_results", {})
+        if ckey in cache and st.spec:
+            # the same pure call was made before in this unit: its result (and the facts about it) are known
+            return k(st, cache[ckey])
+        if ckey not in cache:
+            cache[ckey] = cx.fresh("r_" + c.target.split(".")[-1].strip("_"), c.ret)
+        result = cache[ckey]
     else:
         result = cx.fresh("r_" + c.target.split(".")[-1].strip("_"), c.ret)
     # 3. exceptional exits
@@ -381,6 +392,9 @@ def verify_contract(ex, c):
     for n, t in c.params:
         if t.kind == "ref":
             hyps.append(ex.cls_test(env[n].t, t.args[0]))
+    for name, e in c.axioms:
+        hyps.append(ex.spec_bool(e, pre))
+        cx.notes.append("theory fact assumed in %s: %s" % (c.target, name))
     base = st0.assume(*hyps)
     pre = pre.copy(pc=base.pc)
     T0 = short(c.target)
@@ -437,6 +451,7 @@ def verify_contract(ex, c):
 
     def on_ret(s, v):
         cx.exits += 1
+        cx.current_path = "".join(s.path)
         cx.cover(T0 + "/exit", s)
         if is_value_init:
             v = build_value(ex, fi.cls.name, newobj, s, T0)
@@ -458,14 +473,19 @@ def verify_contract(ex, c):
             val = ex.spec_eval(ve, ps)
             s = ex.field_write(obj, field, val, s)
         ps = s.copy(env=penv, spec=True, old=pre, fn=fi)
+        proved = {}
         for name, e in c.ensures:
             g = ex.spec_bool(e, ps)
-            cx.oblige("%s/%s" % (T0, name), s, g, {"kind": "postcondition", "function": c.target,
-                                                   "clause": ast.unparse(e)[:200]})
+            # clauses listed under using=[...] were stated (and are proved) earlier on this same exit: lemmas
+            su = s.assume(*[proved[u] for u in c.using.get(name, []) if u in proved])
+            cx.oblige("%s/%s" % (T0, name), su, g, {"kind": "postcondition", "function": c.target,
+                                                    "clause": ast.unparse(e)[:200]})
+            proved[name] = g
         frame_obligations(s, "")
 
     def on_exc(s, exc):
         cx.exits += 1
+        cx.current_path = "".join(s.path)
         cx.cover(T0 + "/exit-" + exc.cls, s)
         line = getattr(exc.node, "lineno", "?")
         matching = [R for R in c.raises if exc_is_subclass(ex.repo, exc.cls, R.exc)]
